@@ -3,6 +3,7 @@
 package dirhash
 
 import (
+	"strings"
 	"crypto/sha256"
 	"encoding/base64"
 	"encoding/hex"
@@ -270,4 +271,108 @@ func VerifC19Twin() {
 	_, err := Hash1(vNames(fs), vOpener(fs, false, nil))
 	vAssume(err == nil)
 	vAssert("twin", false)
+}
+
+func init() {
+	vRegister("C19Dir", VerifC19Dir)
+}
+
+var vTreeDirs = []string{"", "d/", ".x/", "d/e/"}
+
+// VerifC19Dir: hashing a directory equals hashing the list of its files under
+// the same prefix (the documented formula, checked for Hash1 by C19Formula),
+// for absolute directories and for "." (relative walk), dot-files included;
+// hashing a zip with the same entries gives the same hash.
+func VerifC19Dir() {
+	defer vFSCleanup()
+	prefix := "m.co/x@v1.0.0"
+	n := 1 + vChoice("nfiles", vParam("maxfiles", 2))
+	type tf struct {
+		rel  string
+		data []byte
+	}
+	var files []tf
+	for i := 0; i < n; i++ {
+		rel := vTreeDirs[vChoice("dir", len(vTreeDirs))]
+		if vChoice("dotfile", 2) == 1 {
+			rel += "."
+		}
+		rel += vSym("name", 1+vChoice("namelen", 2), `[a-z]`)
+		for _, o := range files {
+			// a real tree has no duplicate paths and no file that is also a directory
+			vAssume(o.rel != rel)
+			vAssume(!strings.HasPrefix(o.rel, rel+"/") && !strings.HasPrefix(rel, o.rel+"/"))
+		}
+		files = append(files, tf{rel, vBytes("content", vChoice("contentlen", 3))})
+	}
+	root := vFSTempDir("tree")
+	walkRoot := root
+	if vChoice("dot", 2) == 1 {
+		// the directory is named "." (current directory)
+		vFSChdir(root)
+		walkRoot = "."
+		for _, f := range files {
+			vFSPutFile(f.rel, f.data)
+		}
+	} else {
+		for _, f := range files {
+			vFSPutFile(root+"/"+f.rel, f.data)
+		}
+	}
+	var names []string
+	for _, f := range files {
+		names = append(names, prefix+"/"+f.rel)
+	}
+	open := func(name string) (io.ReadCloser, error) {
+		for _, f := range files {
+			if prefix+"/"+f.rel == name {
+				return &vRC{data: f.data, failAt: -1}, nil
+			}
+		}
+		return nil, errors.New("no such file")
+	}
+	want, err := Hash1(names, open)
+	vAssert("list-hash-ok", err == nil)
+	listed, err := DirFiles(walkRoot, prefix)
+	vReach("walked")
+	vAssert("dirfiles-ok", err == nil)
+	vAssert("dirfiles==files-under-prefix", len(listed) == len(names) && vPermEqD(len(names), func(i, j int) bool { return names[i] == listed[j] }))
+	got, err := HashDir(walkRoot, prefix, Hash1)
+	vAssert("hashdir-ok", err == nil)
+	vAssert("hashdir==hash-of-list", got == want)
+	// the zip with the same entries hashes the same
+	zipPath := vFSTempDir("m.zip")
+	var sizes []int64
+	var datas [][]byte
+	var dirs []bool
+	for _, f := range files {
+		sizes = append(sizes, int64(len(f.data)))
+		datas = append(datas, f.data)
+		dirs = append(dirs, false)
+	}
+	vFSPutZip(zipPath, names, sizes, datas, dirs)
+	zh, err := HashZip(zipPath, Hash1)
+	vAssert("hashzip-ok", err == nil)
+	vAssert("hashzip==hashdir", zh == got)
+}
+
+func vPermEqD(n int, eq func(i, j int) bool) bool {
+	used := make([]bool, n)
+	var rec func(i int) bool
+	rec = func(i int) bool {
+		if i == n {
+			return true
+		}
+		res := false
+		for j := 0; j < n; j++ {
+			if used[j] {
+				continue
+			}
+			used[j] = true
+			res = vOr(res, vAnd(eq(i, j), rec(i+1)))
+			used[j] = false
+		}
+		return res
+	}
+	return rec(0)
 }
